@@ -426,6 +426,24 @@ class Interp(object):
         wantset = set(id(t) for t in want) | set(id(t) for t in want2)
         V(len(gt2) == len(wantset) and set(id(t) for t in gt2) == wantset, "get_taxa_pair",
           lambda: "labels=%r cs=%r got=%r" % ([label, label2], cs, [t.label for t in gt2]))
+        # first_match_only: for each label the first member that matches under the CALL's case rule, in label order
+        gf = ns.get_taxa([label, label2], is_case_sensitive=cs, first_match_only=True)
+        wantf = [w[0] for w in (want, want2) if w]
+        V(len(gf) == len(wantf) and all(x is y for x, y in zip(gf, wantf)), "get_taxa_first_match_only",
+          lambda: "labels=%r cs=%r got=%r want=%r" % ([label, label2], cs, [t.label for t in gf], [t.label for t in wantf]))
+        bit_of = dict((id(m[0]), m[1]) for m in model)
+        for fm in (False, True):
+            wantm = 0
+            for w in (want, want2):
+                for t in (w[:1] if fm else w):
+                    wantm |= bit_of[id(t)]
+            gm = ns.taxa_bitmask(labels=[label, label2], is_case_sensitive=cs, first_match_only=fm)
+            V(gm == wantm, "taxa_bitmask_by_labels_with_case_rule",
+              lambda: "labels=%r cs=%r first_match_only=%r got %s want %s" % ([label, label2], cs, fm, bin(gm), bin(wantm)))
+            if model:
+                bp = ns.taxa_bipartition(labels=[label, label2], is_case_sensitive=cs, first_match_only=fm)
+                V(bp.leafset_bitmask == wantm, "taxa_bipartition_by_labels_with_case_rule",
+                  lambda: "labels=%r cs=%r first_match_only=%r got %s want %s" % ([label, label2], cs, fm, bin(bp.leafset_bitmask), bin(wantm)))
         if want or want2:
             self.ctx.cls("lookup_hit")
         else:
